@@ -384,7 +384,7 @@ Proof.
       destruct l as [|y l].
       * (* the whole line and payload, nothing else: terminator missing *)
         rewrite app_nil_r in H1.
-        assert (Hr' : rest s = enc_line c ++ c_data c ++ []) by (now rewrite app_nil_r, app_assoc).
+        assert (Hr' : rest s = enc_line c ++ c_data c ++ []) by (rewrite app_nil_r; symmetry; exact H1).
         destruct (ch_loop_chunk f s buf acc sp c [] Hc Hr' ltac:(lia) Hsp)
           as [(s' & -> & _)|(t' & s4 & Ht & _)].
         -- now exists s'.
@@ -398,7 +398,7 @@ Proof.
       subst l. rewrite <- app_assoc in H2. apply app_inv_head in H2.
       eapply (IH f s4 buf _ _ last q Hcs Hl); eauto.
       * now rewrite Hr4.
-      * rewrite Hr4. rewrite Hr', !app_length in Hfuel. lia.
+      * rewrite Hr4. rewrite Hr', !app_length in Hfuel. change (length CRLF) with 2 in Hfuel. lia.
 Qed.
 
 (* chunk data that is not followed by CRLF is rejected *)
@@ -426,7 +426,7 @@ Proof.
     { now exists s'. }
     apply app_inv_head in Htt. subst t'.
     eapply (IH f s4 buf _ _ c t Hpre Hc Hr4 Ht); eauto.
-    rewrite Hr4. rewrite Hr', !app_length in Hfuel. rewrite !app_length. lia.
+    rewrite Hr4. rewrite Hr', !app_length in Hfuel. rewrite !app_length. change (length CRLF) with 2 in Hfuel. lia.
 Qed.
 
 (* ---- property-level statements ---- *)
@@ -457,7 +457,6 @@ Lemma C05_truncation_lemma :
 Proof.
   intros cs last p buf sc Hcs Hl (q & Heq & Hq). unfold body_read_chunked.
   eapply (ch_loop_truncated cs _ (stream_init p sc) buf [] false last q Hcs Hl); eauto.
-  simpl. destruct buf; reflexivity.
 Qed.
 
 Lemma C05_missing_crlf_lemma :
@@ -469,8 +468,7 @@ Lemma C05_missing_crlf_lemma :
                = BParseErr s'.
 Proof.
   intros pre c t buf sc Hpre Hc Ht. unfold body_read_chunked.
-  eapply (ch_loop_bad_terminator pre _ _ buf [] false c t Hpre Hc eq_refl Ht); eauto.
-  simpl. destruct buf; reflexivity.
+  eapply (ch_loop_bad_terminator pre _ (stream_init _ sc) buf [] false c t Hpre Hc eq_refl Ht); eauto.
 Qed.
 
 Lemma C05_total_lemma :
@@ -553,12 +551,17 @@ Lemma F5_variant_accepts_truncated :
   f5_loop 20 (stream_init f5_truncated [0; 0; 0; 2]) 8 [] = Some (Some [97; 98; 99]%N).
 Proof.
   split; [|split; [|split]].
-  - repeat split; [discriminate | reflexivity].
+  - split; [discriminate | split; reflexivity].
   - repeat split.
   - exists [13; 10; 48; 13; 10]%N. split; [reflexivity | discriminate].
   - vm_compute. reflexivity.
 Qed.
 
 Lemma F5_variant_rejects_legal :
-  f5_loop 20 (stream_init (enc_chunked [f5_chunk] f5_last CRLF) [0; 0; 0; 20; 20; 0]) 8 [] = Some None.
+  f5_loop 20 (stream_init (enc_chunked [f5_chunk] f5_last CRLF) [0; 0; 0; 20; 0]) 8 [] = Some None.
 Proof. vm_compute. reflexivity. Qed.
+
+Lemma C05_hex_round_trip_lemma :
+  forall (k : nat) (up : list bool) (n : N),
+    py_int_hex (hex_spell k up n) = Some (Z.of_N n) /\ hex_val (hex_spell k up n) = Some n.
+Proof. intros; split; [apply py_int_hex_spell | apply hex_val_spell]. Qed.
